@@ -103,6 +103,10 @@ def check(P, cases, wd, label, res, pid, args=("-j1",), env=None, which="final",
         res.violations.append(("[%s] the real RAM program of %s violates %s of spec/Ram.tla on some EDB (TLC counterexample in replay file); "
                                "dl=%s" % (tag, P["id"], r["violated"], os.path.join(pdir, tag + ".dl")), path))
         st["status"] = "violated"
+    elif not r["ok"] and "which is not in its domain" in (r.get("out") or "") + (r["error"] or "") and \
+            _tupleid_skip_crash(res, pid, env, "rc=-11 (spec/Ram.tla: the unrenumbered RAM reads a tuple id no operation binds)"):
+        # the model meets the known finding the same way the engine does: with TupleId skipped the RAM is ill-formed
+        st["status"] = "known"
     elif not r["ok"]:
         res.infra_errors.append("Ram.tla on %s: %s" % (P["id"], (r["error"] or "")[-600:]))
         st["status"] = "infra"
